@@ -6,7 +6,7 @@ CONSTANTS
   MaxFixed = 0
   CovSpecial = "repaired"
   MaxObs = 2
-  MaxTimes = 2
+  MaxTimes = 3
   FPVariant = "repaired"
 SPECIFICATION FP_Spec
 CHECK_DEADLOCK FALSE
